@@ -534,14 +534,22 @@ class An(ResultQuantifier[T]):
         self._node_.wrap_subtree = True
 
     def evaluate(self) -> Iterable[TypingUnion[T, Dict[TypingUnion[T, SymbolicExpression[T]], T]]]:
+        results = self._evaluate__()
         completed = False
         try:
-            with symbolic_mode(mode=None):
-                results = self._evaluate__()
-                assert not in_symbolic_mode()
-                yield from map(self._process_result_, results)
-            completed = True
+            while True:
+                # symbolic mode is switched off only while the results generator runs, never across a yield.
+                with symbolic_mode(mode=None):
+                    try:
+                        result = next(results)
+                    except StopIteration:
+                        completed = True
+                        break
+                    result = self._process_result_(result)
+                yield result
         finally:
+            with symbolic_mode(mode=None):
+                results.close()
             self._reset_cache_()
             if not completed:
                 self._clear_result_caches_()
